@@ -5,6 +5,10 @@ class RewriteAssignEqualVisitor(Visitor.DefaultVisitor):
     """Translate a <op-equal> b to a = a <op> b."""
 
     def v_AssignmentExpression(self, node, ctx=None):
+        # Operands can contain <op-equal> expressions themselves
+        # (a = b += 2), rewrite those first
+        node.AcceptVisitor(self, ctx)
+
         operation = node.GetOperation()
         if operation == op.Operation.ASSIGN:
             return node
